@@ -31,6 +31,7 @@ RULE += (' Also: three started tee children, two closed one after the other in e
 RULE += (' Also: text / bytes pieces summed over a long stream.')
 RULE += (' Also: partially ordered / NaN keys in nlargest and nsmallest.')
 RULE += (' Also: the consumer calling other tools once per item with closures / partials bound to that item.')
+RULE += (' Also: long lazily produced streams of awaitable jobs (coroutines, future-like objects) bound to their record, through await_each and any_iter.')
 ASSUMPTIONS = ["the bound's constant was read off the unchanged tree with slack; a buffering tool grows linearly and "
                "crosses it within a few steps, so the verdict does not depend on the exact constant"]
 EXHAUSTIVE = {"quick": False, "thorough": False}
@@ -247,6 +248,11 @@ def _tools():
     # (a nearest-reference look-up, a per-chunk check): nothing of a finished call is kept - not its callable either
     T["per_item_tool_calls"] = (1, 1, None, "per_item", {})
     T["iter_sentinel"] = (1, 0, None, "iter_sentinel", {})
+    # a long, lazily produced stream of awaitable jobs, each bound to its record (``(process(x) for x in records)``):
+    # one job is created, awaited and handed on at a time
+    T["await_each_lazy_jobs"] = (1, 1, None, "jobs", {"via": "await_each"})
+    T["any_iter_lazy_jobs"] = (1, 1, None, "jobs", {"via": "any_iter"})
+    T["any_iter_lazy_future_jobs"] = (1, 1, None, "jobs", {"via": "any_iter", "future": True})
     T["all"] = (1, 0, lambda S, n: A.all(S[0]), "agg", {})
     T["any"] = (1, 0, lambda S, n: A.any(S[0]), "agg", {"falsy": True})
     T["sum"] = (1, 0, lambda S, n: A.sum(S[0], W(0)), "agg", {})
@@ -397,6 +403,35 @@ def run_tool(case, stats):
                     del item
                     census.sample("after group item")
                 del group
+        elif kind == "jobs":
+            class Job:
+                """A future-like job that keeps its record (and hands it out as its result)."""
+
+                def __init__(self, record):
+                    self.record = record
+
+                def __await__(self):
+                    return self.record
+                    yield  # pragma: no cover
+
+            async def process(record):
+                return record
+
+            def jobs():
+                for i in range(n):
+                    record = W(i)
+                    census.track(record)
+                    job = Job(record) if opt.get("future") else process(record)
+                    del record
+                    yield job
+                    del job
+
+            stream_of_jobs = jobs()
+            tool = A.await_each(stream_of_jobs) if opt["via"] == "await_each" else A.any_iter(stream_of_jobs)
+            async for item in tool:
+                produced["n"] += 1
+                del item
+                census.sample("after the result of a job")
         elif kind == "iter_sentinel":
             state = {"i": 0}
 
